@@ -38,6 +38,18 @@ fn cpu_seconds_of(pid: u32) -> Option<f64> {
 
 /// Re-judge a stuck case in a child process (`dltverif replay`) under a CPU budget.
 /// Some(true) = the child does not return either (confirmed), Some(false) = it returned, None = could not run it.
+/// Case tracking for the crash supervisor (`dltverif run` re-runs a check whose process died by a signal with
+/// DLTVERIF_TRACK=<dir>): every worker writes the case it is about to evaluate to <dir>/w<k>.json, so that the case in
+/// flight survives an abort (stack overflow, segmentation fault) that no `catch_unwind` can stop.
+static TRACK: std::sync::OnceLock<Option<(PathBuf, String)>> = std::sync::OnceLock::new();
+fn track(w: usize, section: &str, make: &dyn Fn() -> Value) {
+    let t = TRACK.get_or_init(|| std::env::var("DLTVERIF_TRACK").ok().map(|d| (PathBuf::from(d), std::env::var("DLTVERIF_TRACK_PROP").unwrap_or_default())));
+    if let Some((dir, prop)) = t {
+        let body = json!({"property": prop, "section": section, "case": make(), "violation": "the check process died while this case was being evaluated"});
+        let _ = std::fs::write(dir.join(format!("w{}.json", w)), serde_json::to_vec(&body).unwrap_or_default());
+    }
+}
+
 fn confirm_in_child(prop: &str, file: &Path, budget_cpu_s: f64) -> Option<bool> {
     let exe = std::env::current_exe().ok()?;
     let mut child = std::process::Command::new(exe)
@@ -469,6 +481,7 @@ impl Run {
                             return Ok(());
                         }
                         evals.set(evals.get() + 1);
+                        track(w, section, &|| serde_json::to_value(&case).unwrap_or(Value::Null));
                         {
                             let kept = case.clone();
                             *SLOTS[w].lock().unwrap() = Some(Slot {
@@ -612,6 +625,7 @@ impl Run {
                         }
                         // (a block that never returns is named by its number; properties whose `replay` understands
                         // {"enum_block": n} get it re-judged in a child process by the watchdog)
+                        track(w, section, &|| json!({"enum_block": b}));
                         *SLOTS[w].lock().unwrap() = Some(Slot {
                             since: Instant::now(),
                             section: section_arc.clone(),
